@@ -939,25 +939,6 @@ def pre_exclude(case):
     return None
 
 
-ANY = ("crash:", "hang:", "value:", "determinism:", "snapshot_refused", "invalid_snapshot", "mutated_snapshot", "refused:", "accepted:", "length:", "wrong_error:")
-
-
-def _known(region, prefixes, needle=None):
-    def pred(case, vio):
-        return (vio["bucket"].startswith(prefixes) and (needle is None or needle in (vio.get("message") or ""))
-                and region in regions(case))
-    return pred
-
-
-def _tuple_index_outer(case, vio):
-    return (vio["bucket"].startswith("refused:index|tuple") and "out of bounds for a tuple" in (vio.get("message") or "")
-            and "region:nested_tuple_index" in regions(case))
-
-
-def _tuple_index_negative(case, vio):
-    return vio["bucket"].startswith(("accepted:index|tuple", "crash:")) and "region:negative_tuple_index" in regions(case)
-
-
 def _lb_has_complex(T):
     return '"complex128"' in canon(T)
 
@@ -972,45 +953,20 @@ def _lb_composite(case, vio):
             and vio["bucket"].startswith(("lb_", "crash:lb", "hang:lb")))
 
 
-def _lb_union_current(case, vio):
-    """a union at the top of a simple Form where some tag >= the number of entries: UnionArrayBuilder::snapshot sizes the
-    `current` scratch index by len(tags) instead of the number of contents"""
-    if case.get("kind") != "lb" or case["T"][0] != "union" or not lb_simple(case["T"]):
-        return False
-    if not vio["bucket"].startswith(("lb_invalid_snapshot", "lb_value", "crash:lb")):
-        return False
-    tags = [gen.member_of(case["T"], v) for v in _lb_decode(case["values"])]
-    return bool(tags) and max(tags) >= len(tags)
-
-
 KNOWN = {
-    "layoutbuilder_union_current_size": _lb_union_current,
     # LayoutBuilder: a Form with a complex128 leaf is accepted by the Form parser but its AwkwardForth program declares
     # "output ... complex128", a dtype ForthMachine does not know: the constructor raises
     "layoutbuilder_complex128": _lb_complex,
     # LayoutBuilder on Forms that nest list/option/regular/record/union nodes in other than the simplest ways (see lb_simple)
     "layoutbuilder_composite_forms": _lb_composite,
-    # string and bytestring appended at one position: StringBuilder::string ignores `encoding`
-    "builder_string_bytestring_absorbed": _known("region:str+bytes", ("value:bytes/str", "value:str/bytes")),
-    # clear() after a record or tuple was begun: RecordBuilder/TupleBuilder::clear go back to "never begun" (length -1)
-    # but keep contents_ (RecordBuilder also forgets keys_): len() == -1, out-of-bounds keys_ in snapshot, tuples refused
-    "builder_clear_records_tuples": _known("region:struct_then_clear", ANY),
-    # integers, then a complex at the same position: Complex128Builder::fromint64 loops to 2*length (heap overflow)
-    "complex128builder_fromint64_overflow": _known("region:int_then_complex", ANY),
-    # (a complex beside separately stored reals/ints in a union, region:complex_union: NumpyArray::mergemany filled only half of
-    #  the real items - fixed in /repo by 9413bda; replays/C14/5ec5d1a7e23a2181.json is its regression test)
-    # append/extend from an IndexedArray over strings: Indexed*Builder::snapshot puts the content's parameters on the IndexedArray64
-    "indexedbuilder_snapshot_parameters": _known("region:indexed_byref_string", ("invalid_snapshot",), "__array__"),
-    # append/extend from a ByteMasked/BitMasked/UnmaskedArray: IndexedGenericBuilder::snapshot wraps the option-type node in an IndexedArray64
-    "indexedbuilder_snapshot_masked": _known("region:masked_byref", ("invalid_snapshot",), "simplify_optiontype"),
-    # TupleBuilder::index checks the bound of the *outer* tuple for an index meant for a nested one / accepts negative indexes
-    "tuplebuilder_index_outer_bound": _tuple_index_outer,
-    "tuplebuilder_index_negative": _tuple_index_negative,
 }
-
-# validation of proposed repairs: C14_DISABLE_KNOWN=name,name,... makes the named predicates unavailable, so that a run against a
-# patched copy of the repository fails if the repaired region still misbehaves
-for _name in os.environ.get("C14_DISABLE_KNOWN", "").split(","):
-    KNOWN.pop(_name.strip(), None)
+# Repaired in /repo (status "fixed" in known_findings.jsonl; their replays are the regression tier, no predicate any more):
+#   7dbd1d8 StringBuilder::string ignored `encoding` (string and bytestring at one position; census tag region:str+bytes)
+#   711e6b0 RecordBuilder/TupleBuilder::clear left keys/contents misaligned (region:struct_then_clear)
+#   94b7933 Complex128Builder::fromint64 converted 2*length items (region:int_then_complex)
+#   9413bda NumpyArray::mergemany filled half of the reals merged into complex128 (region:complex_union)
+#   a7cd14c Indexed*Builder::snapshot: content parameters on the IndexedArray64 / masked arrays not simplified
+#   403e50a TupleBuilder::index checked the outer tuple's bound and accepted negative indexes
+#   0679c73 LayoutBuilder UnionArrayBuilder::snapshot sized `current` by len(tags)
 
 SEED_CASES = []
